@@ -52,11 +52,11 @@ ASSUMES = ["executor answers: an error or a response with at least one entry per
            "calls have the Go type of the batcher they are routed to (clientImpl routes Put/Delete/DeleteRange to write, Get to read batchers)",
            "gRPC: once stream.Send has failed or the stream context is done, later stream.Send calls fail",
            "comparison get: all per-shard answers of one query carry a secondary key or none does"]
-RULE = ("batch: event lists (Call/Tick/Close) x configurations (write/read, linger 0|>0, count limit incl. 0/-1, byte limit with "
+RULE = ("batch: calls without key material (Delete(\"\"), Put(\"\", nil), DeleteRange(\"\", \"\"), Get(\"\"): size 0) alone / first / last / only among themselves in a batch, count limit 1, calls above the byte limit; event lists (Call/Tick/Close) x configurations (write/read, linger 0|>0, count limit incl. 0/-1, byte limit with "
         "exact fits) x executor scripts (per request: attempts that stream k answers and fail with a retriable status, then ok / error / short / long), distinct by content; stream: interleavings of "
         "sends (ok/failed), responses, receive errors, per-request context cancellations, closure; merge: 0..8 per-shard streams over a '/'-rich key alphabet, "
         "errors anywhere, duplicates, unsorted streams, non-trivial = 2+ streams; mget: 1..6 shards, all comparison types, "
-        "errors/not-found/OK mixes, secondary-index gets (answers carry primary and secondary key), answers whose primary or secondary key equals the search key, partial arrivals, every arrival order of one answer set for <= 4 shards, random callback order, observations per arrival, non-trivial = 2+ shards; "
+        "errors/not-found/OK mixes, secondary-index gets (answers carry primary and secondary key), comparer-stressing keys (same-depth candidates whose non-final segment is a prefix of the other's followed by a byte below '/'), answers whose primary or secondary key equals the search key, partial arrivals, every arrival order of one answer set for <= 4 shards, random callback order, observations per arrival, non-trivial = 2+ shards; "
         "shutdown: real batcher with a parked executor, queue filled to capacity, late Adds parked in the send (seen in the "
         "goroutine dump), Close before / after the fill / after the parking, Adds after Close; the same through the real client in a "
         "child process; an unforced stress of 8 and of 32 Adds racing Close (12000 + 2000 iterations per quick run; a call without completion after every Add has returned and Run's goroutine is gone, or completed twice, is a verdict; the window between Add's check and its send cannot be forced from outside); "
